@@ -27,7 +27,8 @@ logging.getLogger("concurrent.futures").setLevel(logging.CRITICAL)
 PROP = "C15"
 THEOREMS = ["C15_deprecated_filter", "C15_order", "C15_sorted", "C15_exact_partial", "C15_guard_decidable",
             "C15_defaults_refuted", "C15_wrapper_depth_refuted", "C15_typename", "C15_disabled",
-            "C15_typename_exec"]
+            "C15_typename_exec", "C15_default_value_exact", "C15_complete", "C15_deprecated_law",
+            "C15_disabled_exec"]
 AXIOMS_OK = []
 RUN_MODULE = "Run.C15run Schema.IntrospectModel Spec.IntrospectSpec"
 AGREE = "agree_C15"
